@@ -202,6 +202,14 @@ def run(tier):
               "lea rax, []", "lea rax, [+]", "lea rax, [*2]", "lea rax, [rbx*]", "lea rax, [rbx+*2]", "lea rax, [rbx**2]", "mov rax, [rbx+rcx+rdx]", "mov rax, [rbx*2*2]",
               "add rax, 5 rbx", "ret 5, 6", "nop rax, rbx, rcx"]:
         bad.append(("syntax", t, {}))
+    # a comma announces another operand: valid lines of every operand count with a TRAILING comma (an empty last operand), also in
+    # front of a comment or blanks, and with a doubled comma between operands
+    for t in TEMPLATES + ["push rax", "mov rax, 5", "ret", "shld rax, rbx, 5", "vpaddb ymm1, ymm2, ymm3", "vperm2i128 ymm1, ymm2, ymm3, 1", "inc dword [rax]", "add qword [rbx+rcx*2], 7", "jmp 0x10", "lea rax, [rbx]"]:
+        for tail in (",", " ,", ", ", ",\t", ", ; c", ",;c", ",,", ", ,"):
+            bad.append(("syntax", t + tail, {"tmpl": t, "tail": tail}))
+        if ", " in t:
+            bad.append(("syntax", t.replace(", ", ",, ", 1), {"tmpl": t, "tail": "doubled"}))
+            bad.append(("syntax", t.replace(", ", ", , ", 1), {"tmpl": t, "tail": "doubled"}))
     for t in TEMPLATES:
         for pos in range(len(t) + 1):
             for b in (list(range(0x7f, 0x100)) if full or pos % 3 == 0 else [0x7f, 0x80, 0xc3, 0xff]):
@@ -315,7 +323,7 @@ def run(tier):
             stats["rejected_other_entry_points_ok"] += 1
     v.cov["rule"] = ("(i) every spec mnemonic x every operand-kind tuple over {scalar reg, xmm, ymm, memory, immediate} with 0-4 operands (781 tuples); a tuple is 'not defined in x86-64' iff nasm rejects ALL its "
                      "instantiations (live referee, %d lines this run), then instantiated for the library; (ii) every one-character edit of every register name that is lexically a name and not a register/keyword, in "
-                     "register, memory-base and index positions; (iii) scales 0,3,5,6,7,9,10,16,42 in both factor orders; the stack pointer as scaled index, as index of itself, with every base; sums of 2-4 register / scaled-register / displacement terms in any order with repeated registers that contain an invalid scale or a scaled stack pointer (nasm-refereed); 8/16-bit, MMX, XMM and YMM registers as base or index and base/index of different widths; (iv) bracket / comma / "
+                     "register, memory-base and index positions; (iii) scales 0,3,5,6,7,9,10,16,42 in both factor orders; the stack pointer as scaled index, as index of itself, with every base; sums of 2-4 register / scaled-register / displacement terms in any order with repeated registers that contain an invalid scale or a scaled stack pointer (nasm-refereed); 8/16-bit, MMX, XMM and YMM registers as base or index and base/index of different widths; (iv) bracket / comma (leading, doubled, TRAILING after lines of every operand count) / "
                      "operand-after-immediate / empty-operand / unknown-mnemonic syntax errors; (v) bytes 0x7f-0xff, byte order marks and UTF-8 sequences at line start / between tokens / line end, and control bytes 0x01-0x1f (except tab, CR, LF) at positions of 8 template lines, printable non-token characters inside mnemonics and register names; (vi) lines of (i)-(iv) behind 1-3 junk characters (every printable non-letter except ';', '%%' and ':'). Each alone and first/middle/last in a program with valid neighbours, "
                      "option combos sampled; a sample again under chunk fitting, through the counting entry point (chunk size 8 and 0), on a library buffer at a far offset, and with leading tab / trailing comment / CRLF. Oracle: rc == EXIT_FAILURE and no byte at or after the rejected line's start differs from the prefill" % nnasm)
     v.cov["exhaustive"] = False
